@@ -12,6 +12,7 @@ import (
 	"sort"
 	"strconv"
 	"sync"
+	"sync/atomic"
 
 	"verifharness/internal/ev"
 	"verifharness/internal/genlab"
@@ -79,8 +80,16 @@ func (l *local) add(vd Verdict) {
 	l.tallies[k]++
 }
 
+var reported sync.Map // signature -> *int64 (how many witnesses were rendered)
+
 func report(r *ev.Run, c Combo, name string, v Value, t Trip, vd Verdict) {
 	if vd.Sig == "" {
+		return
+	}
+	cnt, _ := reported.LoadOrStore(vd.Sig, new(int64))
+	if atomic.AddInt64(cnt.(*int64), 1) > 8 {
+		// ev keeps the first five witnesses of a signature; only count the rest
+		r.Violate(vd.Sig, "", nil)
 		return
 	}
 	ref := ""
@@ -462,6 +471,6 @@ func Main(args []string) int {
 	r.Assume("transport modelled with net/http itself: request target through URL.RequestURI + url.ParseRequestURI and the generated router's argument cutting (NormalizeEscapedPath, PathUnescape when a '%' remains); headers and cookies through Request.Write + http.ReadRequest, with the sender/receiver field-name (token) and field-value (no CTL but HTAB) checks of RFC 9110 that net/http's Transport and Server apply")
 	r.Assume("primitive <-> text conversion (package conv) is C13's subject: typed shapes feed conv's text into the codec and only check that it parses back; object members are compared as a name->value map; a struct parameter is modelled with all properties required and unknown members ignored, a map parameter without declared properties (as the templates emit)")
 	r.Assume("not decided, only tallied: header values whose serialization starts/ends with SP/HTAB (HTTP field values cannot carry outer blanks: header_ows_trimmed), header values with control bytes (not transportable), parameter names outside [A-Za-z][A-Za-z0-9_-]* (no RFC 6570 varname / HTTP token: name_special/*), values of the emptiness class (empty member, empty array, object without members) when they decode to an error or to another value with the same reference serialization")
-	rule := fmt.Sprintf("admission observed from %d one-parameter documents (location x style keyword x explode keyword x 11 schemas) through ogen.Parse+gen.NewGenerator; every admitted effective combination driven through package uri call-for-call like the templates with the transport in between; %s; plus PRNG Unicode/byte values, %d special parameter names, and cookie escaping exhaustively for every byte string of length <= %d. distinct key = (combination, parameter name, value); enumerated blocks are pairwise distinct by construction", len(allSpellings()), z.describe, len(specialNames), cookieLen)
+	rule := fmt.Sprintf("admission observed from %d one-parameter documents (location x style keyword x explode keyword x %d schemas) through ogen.Parse+gen.NewGenerator; every admitted effective combination driven through package uri call-for-call like the templates with the transport in between; %s; plus PRNG Unicode/byte values, %d special parameter names, and cookie escaping exhaustively for every byte string of length <= %d. distinct key = (combination, parameter name, value); enumerated blocks are pairwise distinct by construction", len(allSpellings()), len(schemaKinds), z.describe, len(specialNames), cookieLen)
 	return r.Finish(rule, 100000, false)
 }
